@@ -292,6 +292,17 @@ Corruptions ==
          [name |-> "origid-len0", b |-> bad(base \o <<128, 9, 0>>, nl)],
          [name |-> "as4aggr-len7", b |-> bad(base \o <<192, 18, 7, 0, 0, 253, 233, 1, 2, 3>>, nl)],
          [name |-> "as4aggr-len12", b |-> bad(base \o <<192, 18, 12, 0, 0, 253, 233, 1, 2, 3, 4, 0, 0, 0, 0>>, nl)]}
+   \* ... and other multiples of the right length (a decoder that tests `len % 4` or reads the first octets only), in the
+   \* one-octet and in the extended length form
+   \cup {[name |-> "nexthop-len8", b |-> bad(<<64, 1, 1, 0, 64, 2, 0, 64, 3, 8, 10, 0, 0, 1, 10, 0, 0, 2>>, nl)],
+         [name |-> "nexthop-len12-ext", b |-> bad(<<64, 1, 1, 0, 64, 2, 0, 80, 3, 0, 12, 10, 0, 0, 1, 10, 0, 0, 2, 10, 0, 0, 3>>, nl)],
+         [name |-> "med-len8", b |-> bad(base \o <<128, 4, 8, 0, 0, 0, 1, 0, 0, 0, 2>>, nl)],
+         [name |-> "lp-len8", b |-> bad(base \o <<64, 5, 8, 0, 0, 0, 1, 0, 0, 0, 2>>, nl)],
+         [name |-> "origid-len8", b |-> bad(base \o <<128, 9, 8, 1, 1, 1, 1, 2, 2, 2, 2>>, nl)],
+         [name |-> "origid-len12-ext", b |-> bad(base \o <<144, 9, 0, 12, 1, 1, 1, 1, 2, 2, 2, 2, 3, 3, 3, 3>>, nl)],
+         [name |-> "origid-len16", b |-> bad(base \o <<128, 9, 16>> \o [i \in 1..16 |-> 1], nl)],
+         [name |-> "aggr-len16", b |-> bad(base \o <<192, 7, 16, 0, 0, 253, 233, 1, 2, 3, 4, 0, 0, 0, 0, 0, 0, 0, 0>>, nl)],
+         [name |-> "origin-len4", b |-> bad(<<64, 1, 4, 0, 0, 0, 0>> \o Drop(base, 4), nl)]}
 \* the same kind of corruption on a 2-octet-AS session (AGGREGATOR is 6 octets there)
 Base2 == EncAttrs(Base(FALSE), FALSE, FALSE)
 Corruptions2 ==
